@@ -940,7 +940,10 @@ func genBuiltinDeferWrapper(n *node, in, out []func(*frame) reflect.Value, fn fu
 			val := make([]reflect.Value, len(in)+1)
 			inTypes := make([]reflect.Type, len(in))
 			for i, v := range in {
-				val[i+1] = v(f)
+				// The arguments of a deferred call are evaluated (and copied) at the defer statement.
+				arg := v(f)
+				val[i+1] = reflect.New(arg.Type()).Elem()
+				val[i+1].Set(arg)
 				inTypes[i] = val[i+1].Type()
 			}
 			outTypes := make([]reflect.Type, len(out))
@@ -1293,7 +1296,10 @@ func call(n *node) {
 			val := make([]reflect.Value, len(values)+1)
 			val[0] = value(f)
 			for i, v := range values {
-				val[i+1] = v(f)
+				// The arguments of a deferred call are evaluated (and copied) at the defer statement.
+				arg := v(f)
+				val[i+1] = reflect.New(arg.Type()).Elem()
+				val[i+1].Set(arg)
 			}
 			f.deferred = append([][]reflect.Value{val}, f.deferred...)
 			return tnext
@@ -1570,7 +1576,10 @@ func callBin(n *node) {
 			val := make([]reflect.Value, l+1)
 			val[0] = value(f)
 			for i, v := range values {
-				val[i+1] = getBinValue(getMapType, v, f)
+				// The arguments of a deferred call are evaluated (and copied) at the defer statement.
+				arg := getBinValue(getMapType, v, f)
+				val[i+1] = reflect.New(arg.Type()).Elem()
+				val[i+1].Set(arg)
 			}
 			f.deferred = append([][]reflect.Value{val}, f.deferred...)
 			return tnext
